@@ -222,7 +222,7 @@ package updown
 //@   requires sorted(q.snpsPos)
 //@   loop 1:
 //@     invariant table[0] >= 0 && table[1] >= 0 && table[2] >= 0 && table[3] >= 0 && table[0] == len(d) && table[2] == 0 && table[0] + table[1] + table[3] == range_i
-//@     invariant forall(j, 0, len(d), exists(m, 0, range_i, d[j] == q.snpsPos[m]))
+//@     invariant freshslice(d) && forall(j, 0, len(d), exists(m, 0, range_i, d[j] == q.snpsPos[m]))
 //@     invariant forall(a, 0, len(d), forall(b, a + 1, len(d), d[a] <= d[b]))
 //@     invariant implies(len(d) > 0 && range_i > 0, d[len(d)-1] <= q.snpsPos[range_i-1])
 //@   loop 2:
